@@ -1402,3 +1402,120 @@ Section InvC.
     intros tr s a s' Hrun HC Hst. eapply invC_step; eauto.
   Qed.
 End InvC.
+
+(* ---- temporary handlers, Remove results, panics -------------------------------------------------- *)
+
+Lemma is_close_in h tr : (0 < cnt (is_close h) tr)%nat <-> In (AClose h) tr.
+Proof.
+  split.
+  - intros H. apply cnt_pos_in in H as [a [Hi Hp]]. destruct a; simpl in Hp; try discriminate.
+    apply N.eqb_eq in Hp. subst. exact Hi.
+  - intros H. apply (in_cnt_pos _ _ _ H). simpl. apply N.eqb_refl.
+Qed.
+
+Section Tmp.
+  Variable sc : scenario.
+  Hypothesis Hwf : wf_sc sc.
+  Notation decl := (sc_decl sc).
+
+  (* close(done) runs at most once per AddTmp (a second close would panic in Go) *)
+  Theorem done_closed_once tr s h :
+    exec sc (init sc) tr = Some s -> (cnt (is_close h) tr <= 1)%nat.
+  Proof.
+    intros Hrun. pose proof (invC_run sc Hwf tr s Hrun) as HC.
+    rewrite (c_closed _ _ _ HC h). pose proof (c_rm _ _ _ HC h). destruct (c_once _ _ _ HC h). lia.
+  Qed.
+
+  (* ... and only after the handler has been removed for good *)
+  Theorem close_implies_removed tr s h :
+    exec sc (init sc) tr = Some s -> In (AClose h) tr ->
+    In h (added sc tr) /\ ~ In h (reg_of sc tr).
+  Proof.
+    intros Hrun Hin. pose proof (invC_run sc Hwf tr s Hrun) as HC.
+    apply is_close_in in Hin. rewrite (c_closed _ _ _ HC h) in Hin.
+    pose proof (c_rm _ _ _ HC h). destruct (c_once _ _ _ HC h) as [_ H2]. apply H2. lia.
+  Qed.
+
+  (* a Remove that returned true removed the handler for good *)
+  Theorem remove_true_removed tr s i h :
+    exec sc (init sc) tr = Some s -> In (ARet i (RRemove h) true) tr ->
+    In h (added sc tr) /\ ~ In h (reg_of sc tr).
+  Proof.
+    intros Hrun Hin. apply in_split in Hin as [u [v ->]].
+    replace (u ++ ARet i (RRemove h) true :: v) with (u ++ ARet i (RRemove h) true :: v) by reflexivity.
+    pose proof Hrun as Hrun'. apply exec_prefix in Hrun as [su [Hu Hv]].
+    pose proof (invC_run sc Hwf u su Hu) as HC.
+    simpl in Hv. destruct (step sc su (ARet i (RRemove h) true)) as [s1|] eqn:Est; [|discriminate].
+    assert (In h (added sc u) /\ ~ In h (reg_of sc u)) as [Ha Hr].
+    { unfold step in Est. destruct (s_crashed su); [discriminate|].
+      destruct (s_thr su i) as [[|r l0] [| |res']] eqn:E0; try discriminate.
+      destruct (rop_eqb (RRemove h) r && Bool.eqb true res') eqn:E3; [|discriminate].
+      apply Bool.andb_true_iff in E3 as [E3 E5]. apply rop_eqb_eq in E3. subst r.
+      destruct res'; [|discriminate]. eapply (c_lin _ _ _ HC); eauto. }
+    exact (removed_stays sc Hwf _ u s h Hrun' Ha Hr).
+  Qed.
+
+  (* C06_removed_silent for AddTmp: once the function has returned true or the deadline
+     goroutine exists, and every Remove call these have queued has run, the handler is gone
+     for good; done is closed exactly when one of those Remove calls was the one that
+     removed it (when a registrar's Remove / Clear / ClearAll got there first, nobody
+     closes done) *)
+  Theorem tmp_removed tr s h :
+    exec sc (init sc) tr = Some s -> hd_tmp (decl h) = true ->
+    (0 < cnt (is_end_true h) tr + deadlines sc tr h)%nat -> s_pend s h = 0%nat ->
+    In h (added sc tr) /\ ~ In h (reg_of sc tr) /\
+    (rm_ok sc tr h <= 1)%nat /\
+    (s_toclose s h = 0%nat -> cnt (is_close h) tr = rm_ok sc tr h).
+  Proof.
+    intros Hrun Htmp Hpos Hp0. pose proof (invC_run sc Hwf tr s Hrun) as HC.
+    pose proof (c_pend _ _ _ HC h Htmp) as Hacc. rewrite Hp0 in Hacc.
+    assert (0 < cnt (is_tmprm h) tr)%nat as Hrm by lia.
+    apply cnt_pos_in in Hrm as [a [Hin Hp]]. destruct a; simpl in Hp; try discriminate.
+    apply N.eqb_eq in Hp. subst h0. apply in_split in Hin as [u [v ->]].
+    pose proof Hrun as Hrun'.
+    replace (u ++ ATmpRemove h :: v) with ((u ++ [ATmpRemove h]) ++ v) in Hrun' |- *
+      by (rewrite <- app_assoc; reflexivity).
+    apply exec_prefix in Hrun' as [s1 [H1 _]]. pose proof H1 as H1'.
+    apply exec_snoc in H1 as [su [Hu Hst]].
+    pose proof (invC_run sc Hwf u su Hu) as HCu.
+    assert (In h (added sc (u ++ [ATmpRemove h])) /\ ~ In h (reg_of sc (u ++ [ATmpRemove h]))) as [Ha Hr].
+    { split.
+      - apply added_mono. apply (c_pa _ _ _ HCu). unfold step in Hst.
+        destruct (s_crashed su); [discriminate|].
+        destruct (Nat.ltb 0 (s_pend su h)) eqn:Ep; [|discriminate]. apply Nat.ltb_lt in Ep. exact Ep.
+      - rewrite reg_of_snoc. simpl. apply sp_remove_gone. unfold sp_ext.
+        destruct (wf_tmp_ok sc Hwf h Htmp) as [_ [Hx _]]. destruct (Hx Htmp) as [_ ->]. reflexivity. }
+    replace ((u ++ [ATmpRemove h]) ++ v) with (u ++ ATmpRemove h :: v) in *
+      by (rewrite <- app_assoc; reflexivity).
+    assert (exec sc (init sc) ((u ++ [ATmpRemove h]) ++ v) = Some s) as Hrun2
+      by (rewrite <- app_assoc; exact Hrun).
+    destruct (removed_stays sc Hwf v (u ++ [ATmpRemove h]) s h Hrun2 Ha Hr) as [Ha' Hr'].
+    rewrite <- app_assoc in Ha', Hr'. simpl in Ha', Hr'.
+    split; [exact Ha'|split; [exact Hr'|]].
+    destruct (c_once _ _ _ HC h) as [H1x _]. split; [exact H1x|].
+    intros Htc. rewrite (c_closed _ _ _ HC h). pose proof (c_rm _ _ _ HC h). lia.
+  Qed.
+
+  (* C06_panic_isolated: with a recover function a panic has the effect of a return, on
+     every later step of every schedule; and the machine never crashes *)
+  Lemma panic_as_return s n h :
+    sc_recover sc = true -> step sc s (AEnd n h OPanic) = step sc s (AEnd n h (ORet false)).
+  Proof. intros Hr. unfold step. rewrite Hr. reflexivity. Qed.
+
+  Theorem panic_isolated tr1 tr2 n h :
+    sc_recover sc = true ->
+    exec sc (init sc) (tr1 ++ AEnd n h OPanic :: tr2) =
+    exec sc (init sc) (tr1 ++ AEnd n h (ORet false) :: tr2).
+  Proof.
+    intros Hr. rewrite !exec_app. destruct (exec sc (init sc) tr1) as [s1|]; [|reflexivity].
+    simpl. rewrite (panic_as_return s1 n h Hr). reflexivity.
+  Qed.
+
+  Theorem recover_never_crashes tr s :
+    sc_recover sc = true -> exec sc (init sc) tr = Some s -> s_crashed s = false.
+  Proof.
+    intros Hr. revert tr s. apply run_ind; [reflexivity|].
+    intros tr s a s' _ IH Hst. destruct a; step_inv Hst; try reflexivity; try assumption;
+      rewrite Hr; reflexivity.
+  Qed.
+End Tmp.
